@@ -188,7 +188,7 @@ fn attrj(prefix: Option<&str>, local: &str, v: &str) -> Value {
     json!({"prefix": match prefix { Some(p) => json!([cps(p)]), None => json!([]) },"local":cps(local),"v":cps(v)})
 }
 
-fn gen_items(r: &mut Rng, n: usize) -> Vec<Value> {
+fn gen_items(r: &mut Rng, n: usize, rich: bool) -> Vec<Value> {
     let names: &[(Option<&str>, &str)] = &[(None, "a"), (Some("p"), "a"), (Some("q"), "b"), (None, "script"), (None, "b"), (Some("xml"), "c"), (Some("z"), "a")];
     let decls: &[(Option<&str>, &str, &str)] = &[(None, "xmlns", "u"), (None, "xmlns", ""), (Some("xmlns"), "p", "u"), (Some("xmlns"), "p", "v"),
         (Some("xmlns"), "p", ""), (Some("xmlns"), "q", "u"), (None, "xmlns", "w"), (Some("xmlns"), "xml", "u"), (Some("xmlns"), "xmlns", "u"),
@@ -212,7 +212,10 @@ fn gen_items(r: &mut Rng, n: usize) -> Vec<Value> {
                         attrs.push(attrj(dp, dl, dv));
                     } else {
                         let (ap, al) = *r.pick(plain);
-                        attrs.push(attrj(ap, al, *r.pick(&["1", "2", "", "&amp;", "&#13;", "&lt;", "'", "&quot;", "a b", "&#10;", "&gt;", "é&#9;"])));
+                        // character references and markup characters only for the serializer round trip (C17): the
+                        // namespace judge (C16) compares attribute values with the source text literally
+                        let vals: &[&str] = if rich { &["1", "2", "", "&amp;", "&#13;", "&lt;", "'", "&quot;", "a b", "&#10;", "&gt;", "é&#9;"] } else { &["1", "2", ""] };
+                        attrs.push(attrj(ap, al, *r.pick(vals)));
                     }
                 }
                 let empty = r.chance(1, 3);
@@ -235,7 +238,10 @@ fn gen_items(r: &mut Rng, n: usize) -> Vec<Value> {
                     }
                 }
             },
-            7 => items.push(json!({"k":"text","s":cps(*r.pick(&["t", " ", "x y", "&#13;", "&amp;", "&lt;&gt;", "&quot;'", "]]&gt;", "&#9;&#10;", "é", "<!--c-->", "<?p d?>", "&#13;&#10;"]))})),
+            7 => {
+                let texts: &[&str] = if rich { &["t", " ", "x y", "&#13;", "&amp;", "&lt;&gt;", "&quot;'", "]]&gt;", "&#9;&#10;", "é", "<!--c-->", "<?p d?>", "&#13;&#10;"] } else { &["t", " ", "x y"] };
+                items.push(json!({"k":"text","s":cps(*r.pick(texts))}))
+            },
             _ => {
                 if let Some((p, l)) = open.last().cloned() {
                     if r.chance(1, 2) {
@@ -358,7 +364,7 @@ pub fn main(args: &Args) {
             (0..args.num("n", 100)).map(|_| json!({"text": cps(&xml_text(&mut r, 12))})).collect()
         }
     } else {
-        (0..args.num("n", 100)).map(|_| { let k = 2 + r.below(14); json!({"items": gen_items(&mut r, k)}) }).collect()
+        (0..args.num("n", 100)).map(|_| { let k = 2 + r.below(14); json!({"items": gen_items(&mut r, k, mode == "ser")}) }).collect()
     };
     for c in cases {
         let text = if c.get("items").is_some() { render(c["items"].as_array().unwrap()) } else { from_cps(&c["text"]) };
